@@ -60,6 +60,8 @@ def run(ctx):
     r.rule("C04.1", "every abstract primitive / factory slot of the base classes is supplied by each back-end", floor=20)
     r.rule("C04.2", "attach primitives store node.parent = self; detach primitives store node.parent = None", floor=6)
     r.rule("C04.3", "etree: each mutation of self._element's children is paired with the same mutation of self._childNodes", floor=4)
+    r.rule("C04.6", "etree: text is appended to .text/.tail, never overwritten, when inserting or re-parenting", floor=6)
+    r.rule("C04.7", "tuple attribute keys (prefix, local, namespace) use the namespace on every path in both back-ends", floor=2)
     r.rule("C04.4", "self.m(...) in the node wrappers resolves to a defined method (observation when unreachable)", floor=3)
     r.rule("C04.5", "overrides keep the base positional parameter list", floor=10)
     base_node, base_tb, et_el, dm_el, et_tb, dm_tb = backends(ctx)
@@ -159,6 +161,80 @@ def run(ctx):
     if n3 < 4:
         raise AnalysisError("C04.3 matched only %d child-list mutations" % n3)
 
+    # ---- C04.6 text accumulation (etree keeps text in .text/.tail strings)
+    for nm in ("insertText", "reparentChildren"):
+        m = et_el.methods.get(nm)
+        if m is None:
+            raise AnalysisError("etree Element.%s vanished" % nm)
+        for st in walk_no_nested(m.node):
+            if isinstance(st, ast.Assign) and isinstance(st.targets[0], ast.Attribute) and st.targets[0].attr in ("text", "tail"):
+                ok = isinstance(st.value, ast.Constant) and st.value.value in ("", None)
+                r.check("C04.6", ok, "etree::%s::%s = %s" % (nm, norm(st.targets[0])[-30:], norm(st.value)[:20]),
+                        "%s:%d" % (m.module.rel, st.lineno),
+                        "Element.%s overwrites existing %s with `%s` instead of appending to it: text already there is lost "
+                        "(the DOM back-end keeps it as a separate text node)" % (nm, st.targets[0].attr, norm(st.value)))
+            elif isinstance(st, ast.AugAssign) and isinstance(st.target, ast.Attribute) and st.target.attr in ("text", "tail"):
+                r.check("C04.6", isinstance(st.op, ast.Add), "etree::%s::%s += ..." % (nm, norm(st.target)[-30:]),
+                        "%s:%d" % (m.module.rel, st.lineno), "text is combined with %s" % type(st.op).__name__)
+    # ---- C04.3b: `childNodes` is a property in the etree back-end (getter returns the shadow list, setter clears both
+    # lists): mutating the returned list in place changes the shadow list only
+    n3b = 0
+    for rel in ("treebuilders/base.py", "treebuilders/etree.py", "treebuilders/dom.py", "html5parser.py"):
+        for f in ctx.repo.module(rel).all_functions:
+            for st in walk_no_nested(f.node):
+                tgt = None
+                if isinstance(st, ast.Delete):
+                    for t in st.targets:
+                        if isinstance(t, ast.Subscript) and isinstance(t.value, ast.Attribute) and t.value.attr == "childNodes":
+                            tgt = norm(st)
+                elif isinstance(st, ast.Call) and isinstance(st.func, ast.Attribute) and isinstance(st.func.value, ast.Attribute) \
+                        and st.func.value.attr == "childNodes" and st.func.attr in ("append", "remove", "insert", "pop", "clear", "extend", "sort", "reverse"):
+                    tgt = norm(st)
+                elif isinstance(st, ast.Assign) and isinstance(st.targets[0], ast.Subscript) and \
+                        isinstance(st.targets[0].value, ast.Attribute) and st.targets[0].value.attr == "childNodes":
+                    tgt = norm(st)
+                if tgt:
+                    n3b += 1
+                    r.bad("C04.3", "in-place::%s::%s" % (f.qual, tgt[:40]), "%s:%d" % (rel, st.lineno),
+                          "`%s` mutates the list returned by the childNodes property in place: in the ElementTree back-end that is "
+                          "only the shadow list, the real children stay (nodes are duplicated / not moved)" % tgt)
+    uses = [f for rel in ("treebuilders/base.py",) for f in ctx.repo.module(rel).all_functions
+            if any(isinstance(x, ast.Assign) and isinstance(x.targets[0], ast.Attribute) and x.targets[0].attr == "childNodes"
+                   for x in walk_no_nested(f.node))]
+    r.check("C04.3", any(f.qual == "Node.reparentChildren" for f in uses), "reparent-clears-through-property", base_node.where,
+            "base.Node.reparentChildren no longer clears the children by assigning the childNodes property")
+    prop = et_el.assigns.get("childNodes")
+    r.check("C04.3", prop is not None and norm(prop) == "property(_getChildNodes, _setChildNodes)", "etree-childNodes-property", et_el.where,
+            "etree Element.childNodes is no longer the (getter, setter) property pair")
+    setter = et_el.methods.get("_setChildNodes")
+    ssrc = " ".join(norm(setter.node).split()) if setter else ""
+    r.check("C04.3", "del self._element[:]" in ssrc and "self._childNodes = []" in ssrc, "etree-setter-clears-both", et_el.where,
+            "the childNodes setter does not clear both the ElementTree children and the shadow list")
+
+    # ---- C04.7: attribute keys given as (prefix, local, namespace) tuples use the namespace in both back-ends
+    for cls, label, meth in ((et_el, "etree", "_setAttributes"), (dm_el, "dom", "setAttributes")):
+        m = cls.methods.get(meth)
+        if m is None:
+            raise AnalysisError("%s attribute setter vanished" % label)
+        cfg = CFG(m.node)
+        tests = [x for x in cfg.nodes if x.kind == "test" and norm(x.ast).startswith("isinstance(") and norm(x.ast).endswith(", tuple)")]
+        if len(tests) != 1:
+            raise AnalysisError("%s %s: tuple-key test not found" % (label, meth))
+        keyvar = norm(tests[0].ast.args[0])
+
+        def uses_ns(x, keyvar=keyvar):
+            if x.ast is None or x.kind == "loopiter":
+                return False
+            return any(isinstance(y, ast.Subscript) and norm(y.value) == keyvar and isinstance(y.slice, ast.Constant) and y.slice.value == 2
+                       for y in ast.walk(x.ast))
+        # from the true edge of the test, every path to the end of the loop body / exit passes a use of key[2]
+        starts = [mm for mm, lab in tests[0].succ if lab is True]
+        par = cfg.reach_forward([tests[0]], uses_ns, lambda src, dst, lab, t=tests[0]: not (src is t and lab is False))
+        escaped = [cfg.nodes[i] for i in par if cfg.nodes[i].kind in ("loopiter", "exit")]
+        r.check("C04.7", not escaped and bool(starts), "%s::tuple-attribute-uses-namespace" % label, m.where,
+                "%s %s handles a (prefix, local, namespace) attribute key on some path without using the namespace: the "
+                "attribute is stored un-namespaced in this back-end only" % (label, meth), detail={"backend": label})
+
     # ---- C04.4
     for cls, label in ((et_el, "etree"), (dm_el, "dom")):
         for nm, m in cls.methods.items():
@@ -220,6 +296,11 @@ def mutants():
         T("etree-no-fragment", "treebuilders/etree.py", "        fragmentClass = DocumentFragment\n", "", "C04.1"),
         T("sig-change", "treebuilders/dom.py", "        def insertText(self, data, insertBefore=None):\n            text = self.element.ownerDocument",
           "        def insertText(self, data, before):\n            insertBefore = before\n            text = self.element.ownerDocument", "C04.5"),
+        T("inserttext-overwrite", "treebuilders/etree.py", "                    if not self._element.text:\n                        self._element.text = \"\"\n                    self._element.text += data\n\n        def cloneNode",
+          "                    self._element.text = data\n\n        def cloneNode", "C04.6"),
+        T("reparent-del-slice", "treebuilders/base.py", "            newParent.appendChild(child)\n        self.childNodes = []", "            newParent.appendChild(child)\n        del self.childNodes[:]", "C04.3"),
+        T("dom-ns-dropped", "treebuilders/dom.py", "                        else:\n                            qualifiedName = name[1]\n                        self.element.setAttributeNS(name[2], qualifiedName,\n                                                    value)",
+          "                            self.element.setAttributeNS(name[2], qualifiedName,\n                                                        value)\n                        else:\n                            self.element.setAttribute(name[1], value)", "C04.7"),
         T("shadow-insert-wrong-index", "treebuilders/etree.py", "            self._childNodes.insert(index, node)\n", "            self._childNodes.insert(0, node)\n", "C04.3"),
     ]
 
